@@ -120,10 +120,10 @@ def validate(rep, hists, label):
 def run(tier, seed):
     rep = Report("C20", tier, seed)
     quick = tier == "quick"
-    scens = [1, 2, 3, 4, 5]
+    scens = [1, 2, 3, 4, 5, 7]
     nonvac = []
     for be in ("shared", "disjoint"):
-        for sc in (scens[:4] if quick else scens):
+        for sc in ([1, 2, 3, 4, 7] if quick else scens):
             rep.add_mc(f"MC_FimStoreConc scenario={sc} backend={be}", mc(rep, sc, be, True), {"Scenario": sc, "Backend": be})
         # non-vacuity: without the lock the same model must break (reported, not a verdict)
         r = mc(rep, 3, be, False)
